@@ -335,8 +335,16 @@ def taxonOcc (progs : List (Name × List Taxon)) : List (Name × Name) :=
 /-- `[(span.start, span.end) for span in sorted(set(spans))]` -/
 def preparedSpans (spans : List Span3) : List PoorSpan := (sortU spans).map Span3.poor
 
+/-- `bags.setdefault(label_name, set()).update(spans)`: the spans of all the entries bearing one name,
+at the position of the first entry of that name (fix F47: a hinted label may bear the name of a label
+that an SQL query also derives; `ProgramParser.__call__` then returns two entries of that name). -/
+def labelBags (ls : List Label) : List (Name × List Span3) :=
+  ls.foldl (fun d l => set d l.name ((get? d l.name).getD [] ++ l.spans)) []
+
+/-- `prepared_labels`: one key per label name, with the sorted distinct spans of ALL the entries of
+that name, projected on (start, end). -/
 def preparedLabels (ls : List Label) : List (Name × List PoorSpan) :=
-  ls.foldl (fun d l => set d l.name (preparedSpans l.spans)) []
+  (labelBags ls).map fun e => (e.1, preparedSpans e.2)
 
 def preparedTaxa (ts : List Taxon) : List (Name × List PoorSpan) :=
   ts.foldl (fun d t => set d t.name (preparedSpans t.spans)) []
